@@ -226,8 +226,6 @@ def decimal_value(g: L.G) -> decimal.Decimal:
                                     '1.00000000000000000000000000050', '99999999999999999999999999999.99']))
     else:
         d = decimal.Decimal(g.n(0, 9999)).scaleb(-g.n(0, 3))
-    if g.p(0.3) and len(d.as_tuple().digits) <= 28:
-        # (a negative number is spelt with a unary minus, whose evaluation is decimal arithmetic and rounds to the context precision:
-        # exact read-back of more than 28 digits is only claimed for unsigned values)
-        d = d.copy_negate()
+    if g.p(0.3):
+        d = d.copy_negate()   # exact (the unary minus operator would round to the context precision)
     return d
